@@ -186,3 +186,8 @@ def nontrivial(case, obs):
             if core[0] in FLUSHES and assigned and info['ok']:
                 return True
     return False
+
+
+def shrink(case, run):
+    import sys
+    return L.shrink(sys.modules[__name__], case, run)
